@@ -134,6 +134,12 @@ theorem clean_enumValue (v : EnumValue) (h : WFEnumValue v) : CleanText v.render
   simp [List.all_append, List.all_cons, isLineChar, all_line_constName name hn, all_line_nat n]
   exact all_line_nat' n
 
+/-- the line of a plain member -/
+theorem clean_plain_line (name : String) (hn : IsPropName name) (t : FieldType) (v : FieldValue) (ht : WFType t) (hv : WFValue v) :
+    CleanText (name.toList ++ ' ' :: '=' :: ' ' :: (t.render.toList ++ valueText v)) := by
+  apply clean_name_line _ _ (Or.inr (Or.inl hn))
+  simp [List.all_append, List.all_cons, isLineChar, all_line_propName name hn, all_line_type t ht, all_line_value v hv]
+
 theorem clean_member (m : Member) (h : WFMember m) : CleanText m.render.toList := by
   cases h with
   | plain name t v hn ht hv =>
